@@ -70,7 +70,7 @@ def run(ctx):
     cases = []
     for fam in zoo.FAMILIES:
         for k in range(per):
-            crng = np.random.default_rng([ctx.seed, hash(fam.name) % 2**31, k])
+            crng = np.random.default_rng([ctx.seed, core.shash(fam.name), k])
             cfg = fam.config(crng)
             if fam.kind == "stream":
                 n = int(crng.choice([300, 800, 1500])) if fam.name != "PCACD" else int(crng.choice([400, 900]))
@@ -112,7 +112,10 @@ def run(ctx):
                 prev_drift = d
             case["drifts"] = drifts
             case["rows"] = rows
-            if exc is not None:
+            if exc is not None and fam.name == "CUSUM" and "Standard deviation is 0" in exc:
+                # documented rejection of a constant estimation window (degenerate, DESIGN §6): the history ends here
+                ctx.count("CUSUM:sd-zero-rejection")
+            elif exc is not None:
                 # an accepted update must not raise: the contract quantifies over accepted updates
                 ctx.fail(detector=fam.name, config=cfg, step=len(rows), history_seed=[ctx.seed, fam.name, k],
                          what="update raised " + exc, last_rows=rows[-3:])
